@@ -19,8 +19,8 @@ TESTS = {
     "C07": [s1("TestC07_S1Justified", 40000, 250000, qshards=8)],
     "C08": [s1("TestC08_SingleFlight", 50000, 400000, qshards=6), s1("TestC08_S4Overlap", 600, 6000, timeout_t=2400)],
     "C09": [s1("TestC09_WritePlacement", 50000, 400000, qshards=8)],
-    "C10": [s1("TestC10_S1Loads", 40000, 250000, qshards=8)],
-    "C11": [s1("TestC11_S1Refresh", 40000, 250000, qshards=6), s1("TestC11_S1NoRefresh", 3000, 30000, qshards=1, tshards=4), s1("TestC11_S2InFlight", 30000, 250000)],
+    "C10": [s1("TestC10_S1Loads", 40000, 250000, qshards=8), s1("TestC10_S2Waiters", 40000, 300000)],
+    "C11": [s1("TestC11_S1Refresh", 40000, 250000, qshards=6), s1("TestC11_S1NoRefresh", 3000, 30000, qshards=1, tshards=4), s1("TestC11_S2InFlight", 30000, 250000), s1("TestC11_S2RefreshResults", 30000, 250000)],
     "C12": [s1("TestC12_S1Deadlines", 40000, 250000, qshards=8)],
     "C13": [s1("TestC13_S1Sweep", 40000, 250000, qshards=6), s1("TestC13_ClockGate", 10000, 100000)],
     "C14": [s1("TestC14_DrainProtocol", 8000, 150000, qshards=8, timeout_t=2400)],
